@@ -8,3 +8,28 @@ claim("C19",
       "bytecode-level preemption inside a locked block and real OS scheduling are outside the claim",
       "CrossHair symbolic execution (z3) of real OrderedLock/OrderedCounter code: inductive action lemmas + scheduled scenarios",
       "DESIGN.md §3 C19")
+claim("C12",
+      "Bounded symbolic execution of the real step executor from an ARBITRARY reachable step record (all 5 statuses x any attempt >= 0 x payload/error/"
+      "timestamp options x both semantics x function outcome x arbitrary strategy decision/delay): strategy sees attempt+1, RETRY is synchronous with "
+      "delay max(d,1) and precedes a timed suspension of that delay, decline => FAIL then raise, PENDING/terminal never re-attempted; real "
+      "create_retry_strategy cut-off (retry => attempts < max). Inductive in the history: every history leaves one such record.",
+      "backend contract + FakeState + stub clock/logging (see evidence assumptions); retry count bound m-1 follows by induction over invocations (stated); "
+      "delay kernel floats are decided by a direct z3 query over reals, not IEEE doubles",
+      "CrossHair symbolic execution (z3) of real StepOperationExecutor/create_retry_strategy; z3 query on the delay expression translated from the AST",
+      "DESIGN.md §3 C12")
+claim("C01",
+      "Three solver-checked links of an induction over invocations: (L1) every terminal record short-circuits every real executor (no user function, no update, "
+      "recorded value/error returned) for step, wait, invoke, callback, wait_for_condition, child (+ReplayChildren exception); (L2) a value/final error leaves "
+      "process() only after a synchronous SUCCEED/FAIL; (L3) real fetch_paginated_operations maps every id to its last record under every page split "
+      "(<= 3 records quick / 4 thorough, empty pages included). All paths exhausted per lemma.",
+      "composition of the links (and identity of ids across invocations, C08) is an argument in DESIGN.md, not a query; backend contract and FakeState are stubs",
+      "CrossHair symbolic execution (z3) of the real operation executors and fetch_paginated_operations over arbitrary records / page splits",
+      "DESIGN.md §3 C01")
+claim("C15",
+      "Bounded symbolic round-trip of the real default codec: values built from solver-chosen shapes (depth <= 2 fully, depth-3 spine, width <= 2) with symbolic "
+      "int/bool/str/float leaves, envelope look-alikes with every real tag, BatchResult items, non-string keys (must be rejected), extended leaf types at "
+      "symbolic positions; oracle is type-exact equality at every level or a serialization error. All paths exhausted.",
+      "json is an opaque model of CPython's conversion table; serdes `match` statements lowered for tracing; stdlib conversions (base64/uuid/Decimal/isoformat) trusted; "
+      "replays use the real json and the unmodified module",
+      "CrossHair symbolic execution (z3) of real serdes.serialize/deserialize over solver-built nested values",
+      "DESIGN.md §3 C15")
